@@ -230,6 +230,7 @@ fn schema_case(i: usize) -> ModelGame {
 pub fn case(ctx: &Ctx, kind: &str, params: &Value, counting: bool) -> Result<(), Fail> {
 	match kind {
 		"schema" => check(ctx, &schema_case(params["i"].as_u64().unwrap_or(0) as usize), "schema_sweep", counting),
+		"large" => check(ctx, &large_model(params["i"].as_u64().unwrap_or(0) as usize), "large_game", counting),
 		"fixture" => match fixture_model(&dna_param(params)) {
 			Some((_, m)) => check(ctx, &m, "fixture", counting),
 			None => Ok(()),
@@ -261,6 +262,10 @@ pub fn run(ctx: &Ctx) -> usize {
 		{
 			violations += 1;
 		}
+	}
+	// games that cross 8-bit / 16-bit counters (items per frame, items in total, frame rows)
+	if violations == 0 && run_enum(ctx, "large", LARGE_CASES, |i| json!({ "i": i }), |i| check(ctx, &large_model(i), "large_game", true)).is_some() {
+		violations += 1;
 	}
 	violations
 }
